@@ -326,6 +326,9 @@ func toString(a cty.Value) (string, rendered) {
 		return "false", rok("")
 	case cty.Number:
 		n := numOf(a)
+		if isNegZero(a) {
+			return "", rfree("format-text-of-negative-zero")
+		}
 		if n.IsWhole() && n.R.Num().IsInt64() {
 			return n.R.Num().String(), rok("")
 		}
